@@ -35,7 +35,9 @@ type tokPoint struct {
 var c03Dims = map[string][]string{
 	"sig":   {"good", "otherkey", "none", "hs256pub", "garbage", "noidtoken", "rs512key", "enckey"},
 	"iss":   {"ok", "wrong", "absent"},
-	"aud":   {"client", "other", "client+untrusted", "client+trusted", "absent", "client+trusted+untrusted", "untrusted+client"},
+	// "/azp:…": the token also carries an authorized-party claim (Keycloak / Google style); it changes nothing about which audiences are trusted
+	"aud": {"client", "other", "client+untrusted", "client+trusted", "absent", "client+trusted+untrusted", "untrusted+client",
+		"client+untrusted/azp:client", "client+trusted/azp:client", "client/azp:client", "client+untrusted/azp:other", "untrusted+client/azp:client"},
 	"exp":   {"+60", "-3", "-7", "absent"},
 	"iat":   {"0", "+3", "+7", "absent"},
 	"nbf":   {"absent", "+3", "+7"},
@@ -134,7 +136,14 @@ func runC03(c *ctx) {
 				case "wrong":
 					cl["iss"] = "https://evil.example"
 				}
-				switch p.aud {
+				audBase, azp, _ := strings.Cut(p.aud, "/azp:")
+				switch azp {
+				case "client":
+					cl["azp"] = req.ClientID
+				case "other":
+					cl["azp"] = "someone-else"
+				}
+				switch audBase {
 				case "client":
 					cl["aud"] = req.ClientID
 				case "other":
